@@ -19,7 +19,7 @@ from oracle import specsgz as S, segygen as G      # noqa: E402
 
 QUICK = [((3, 5, 6), 2, False), ((4, 4, 6), 2, False), ((8, 5, 6), 3, False), ((63, 4, 6), 2, False), ((64, 8, 6), 2, False), ((65, 3, 6), 3, False),
          ((5, 68, 6), 2, False), ((8, 8, 1030), 2, False), ((8, 128, 6), 2, False), ((6, 7, 9), 2, True), ((12, 5, 6), 0, False),
-         ((4, 68, 1030), 2, False), ((5, 64, 6), 2, False)]
+         ((4, 68, 1030), 2, False), ((5, 64, 6), 2, False), ((6, 7, 9), 'dup', False)]
 THOROUGH = QUICK + [((68, 68, 6), 3, False), ((129, 5, 6), 2, False), ((5, 129, 6), 2, False), ((128, 64, 6), 2, False), ((64, 64, 5), 3, False),
                     ((16, 16, 2050), 2, False), ((66, 9, 6), 2, True), ((7, 64, 6), 0, False), ((4, 128, 1025), 3, False)]
 
@@ -35,15 +35,19 @@ def make_source(d, shape, n_arrays, irregular, seed):
     xl = [7 + 3 * k for k in range(shape[1])]
     with G.LibVersion('0.2.8'), warnings.catch_warnings():
         warnings.simplefilter('ignore')
-        if irregular or n_arrays == 0:
+        if irregular or n_arrays == 0 or n_arrays == 'dup':
             present = None
             if irregular:
                 present = np.ones(shape[:2], dtype=bool)
                 present[0, 0] = False
                 present[shape[0] // 2, shape[1] - 1] = False
                 present[shape[0] - 1, 1] = False
-            ntr = G.write_segy(os.path.join(d, 's.sgy'), cube, il, xl, present=present,
-                               extra_headers={21: (np.arange(shape[0] * shape[1]) * 3 + 1).astype(np.int32)})
+            extra = {21: (np.arange(shape[0] * shape[1]) * 3 + 1).astype(np.int32)}
+            if n_arrays == 'dup':
+                # a duplicated header word (heuristic detection stores ONE array for SourceX and CDP_X) followed by further stored fields
+                extra[73] = extra[181] = (np.arange(shape[0] * shape[1]) * 7 + 1000).astype(np.int32)
+                extra[185] = (np.arange(shape[0] * shape[1]) % shape[1] + 5000).astype(np.int32)
+            ntr = G.write_segy(os.path.join(d, 's.sgy'), cube, il, xl, present=present, extra_headers=extra)
             with SegyConverter(os.path.join(d, 's.sgy')) as c:
                 c.run(src, bits_per_voxel=2, header_detection='strip' if n_arrays == 0 else 'heuristic')
         else:
@@ -143,7 +147,7 @@ def main():
         print('REPRODUCED ' + failures[0]['what'] if failures else 'not reproduced')
         return
     print(json.dumps({'cases': len(cases), 'distinct_nontrivial': len(set(case_id(*c) for c in cases)), 'failures': failures, 'rule': 'default-layout 2-bit sources over a grid of cube shapes (below/at/above one and two 64-blocks per axis, '
-                      'sample counts around 1024) x 0/2/3 stored header arrays x regular/irregular; adv file vs source under the spec oracle and the real reader',
+                      'sample counts around 1024) x 0/2/3 stored header arrays (and one file with a duplicated header word) x regular/irregular; adv file vs source under the spec oracle and the real reader',
                       'bound': f'{len(cases)} listed (shape, arrays, regularity) cases', 'samples': [case_id(*c) for c in cases[:4]]}))
 
 
